@@ -237,6 +237,72 @@ def run(ctx):
         errs = T.validate_agp_text(got, lengths(snap["scaffolds"]) if len(set(names)) == len(names) else None) if all(R.flen(r) >= 1 for s_ in snap["scaffolds"] for r in s_["rows"] if r["t"] == "G") else []
         if errs:
             ctx.out.oracle_fail("object-history", inp, "AGP of a changed scaffold is not coordinate-valid: " + errs[0])
+    # FASTA files as they occur in the wild: sequence lines with trailing blanks / tabs, a header ending in LF over CRLF sequence
+    # lines, lower case, IUPAC codes.  Whatever the indexer makes of such a file, the AGP written beside a FASTA output must be valid and
+    # its object ends must equal the lengths of the records written with it (pretext-to-asm, FASTA in, FASTA out, every record painted whole).
+    from click.testing import CliRunner as _CR
+    from tola.assembly.scripts.pretext_to_asm import cli as _p2a
+    import logging as _logging
+    with F.Scratch() as sc:
+        for i in range(25 * n):
+            nrec = rng.randint(1, 3)
+            w = rng.choice([7, 20, 40, 60])
+            pad = rng.choice([b" ", b"\t", b"  ", b""])
+            le = rng.choice([b"\n", b"\r\n"])
+            data = bytearray(); lens = {}
+            for k in range(nrec):
+                L = rng.randint(w + 1, 5 * w)
+                seq = bytes(rng.choice(b"ACGTACGTacgtNRY") for _ in range(L))
+                name = f"ctg{k+1}"
+                data += b">" + name.encode() + (b" some description" if rng.random() < 0.3 else b"") + rng.choice([b"\n", le])
+                for j in range(0, L, w):
+                    data += seq[j:j + w] + pad + le
+                lens[name] = L
+            d = sc.path / f"dirty{i}"; d.mkdir()
+            (d / "in.fa").write_bytes(bytes(data))
+            lines = ["##agp-version\t<NA>", "# HiC MAP RESOLUTION: 1 bp/texel"]
+            inp = {"fasta": bytes(data).decode("latin-1"), "source": "dirty-fasta-cli", "line_padding": pad.decode()}
+            ctx.out.case("dirty-fasta-cli", inp, ("dirty", nrec, w, len(pad), len(le)))
+            # first run: learn the record lengths the indexer assigns (trailing blanks count as residues for the unchanged code)
+            try:
+                from tola.fasta.index import FastaIndex as _FI
+                fi = _FI(d / "in.fa"); fi.auto_load()
+                rl = {k_: v.length for k_, v in fi.index.items()}
+                fi.fasta_fileandle.close()
+            except Exception as e:
+                ctx.out.oracle_fail("dirty-fasta-cli", inp, f"indexing raised {conv.errkind(e)}")
+                continue
+            for k, (name, L) in enumerate(rl.items()):
+                lines.append("\t".join([f"Scaffold_{k+1}", "1", str(L), "1", "W", name, "1", str(L), "+", "Painted"]))
+            (d / "ptx.agp").write_text("\n".join(lines) + "\n")
+            _logging.disable(_logging.CRITICAL)
+            res = _CR().invoke(_p2a, ["-a", str(d / "in.fa"), "-p", str(d / "ptx.agp"), "-o", str(d / "out.fa"), "--no-write-log"])
+            for h in list(_logging.getLogger().handlers):
+                try:
+                    h.close()
+                except Exception:
+                    pass
+                _logging.getLogger().removeHandler(h)
+            if res.exit_code != 0:
+                ctx.out.oracle_fail("dirty-fasta-cli", inp, f"pretext-to-asm failed on a FASTA with padded lines (exit {res.exit_code}: {res.exception!r})")
+                continue
+            for fa_out in d.glob("out.*.fa"):
+                agp = fa_out.with_suffix(".agp")
+                recl, cur = {}, None
+                bad_line = False
+                for l in fa_out.read_bytes().split(b"\n"):
+                    if l.startswith(b">"):
+                        cur = l[1:].decode(); recl[cur] = 0
+                    elif cur is not None:
+                        recl[cur] += len(l)
+                        if len(l) > 60:
+                            bad_line = True
+                errs = T.validate_agp_text(agp.read_text(), recl) if agp.exists() else ["no AGP written beside the FASTA"]
+                if bad_line:
+                    errs.append("a FASTA output line is longer than 60")
+                if errs:
+                    ctx.out.oracle_fail("dirty-fasta-cli", inp, f"{fa_out.name} / {agp.name}: " + errs[0])
+                    break
     # asm-format CLI
     from click.testing import CliRunner
     from tola.assembly.scripts.asm_format import cli
